@@ -29,6 +29,7 @@ ALL_FEATURES = frozenset({
     "const_cond",                   # ?: with a compile-time constant condition (dead arm mentions live operands)
     "const_cmp",                    # comparison of two compile-time constants used as a condition
     "cmp_init",                     # comparison directly as initialiser / assigned value
+    "chain_assign",                 # a = b = e / a = b += e with e reading a or b (two distinct objects)
 })
 
 # frozen feature list used by the static checks C10-C12 (explicit: later additions to ALL_FEATURES do not leak in)
@@ -394,6 +395,22 @@ def assign_stmt(draw, env, depth, allow_hybrid):
         else:
             rhs = draw(expr(env, depth, allow_hybrid))
         return ("expr", ("assign", op, lhs, rhs))
+    if "chain_assign" in f and not cmp_rhs and k in ("var", "dst", "rw") and draw(st.integers(0, 2)) == 0:
+        # chained assignment to two distinct objects; the right-hand side reads one of them half of the time
+        locs = [n for n in sorted(env.vars) if not n.startswith("__") and ("var", n) != lhs]
+        inner_c = [("var", n) for n in locs]
+        if lhs[0] == "var":
+            inner_c += [("opnd", o) for o in env.dsts]
+        if inner_c:
+            lhs2 = draw(st.sampled_from(inner_c))
+            rhs = draw(expr(env, max(depth - 1, 0), False))
+            readable = [x for x in (lhs, lhs2) if x[0] == "var"]
+            if readable and draw(st.booleans()):
+                rhs = ("bin", draw(st.sampled_from(["+", "-", "^"])), draw(st.sampled_from(readable)), rhs)
+            op2 = "="
+            if "compound_assign" in f and lhs2[0] == "var" and env.vars[lhs2[1]][1] >= 32 and draw(st.integers(0, 3)) == 0:
+                op2 = draw(st.sampled_from(["+=", "-=", "^=", "|=", "&="]))
+            return ("expr", ("assign", "=", lhs, ("assign", op2, lhs2, rhs)))
     return ("expr", ("assign", "=", lhs, rhs_() if cmp_rhs else draw(expr(env, depth, allow_hybrid))))
 
 
